@@ -58,6 +58,56 @@ def file_invariants(cfg, f):
     return None
 
 
+def occupied_period_case(mode, verbose=False):
+    """an earlier run left a finalized file in period 5; a new session (its own UUID) records periods 2 and 3, runs
+    into period 5 (refused: finalized files are never replaced), and goes on with periods 7 and 8 on the same
+    writer.  The files of the session carry its UUID, one start timestamp, and sequence numbers that increase with file
+    time.  -> problem or None"""
+    import digital_rf
+    work = common.scratch_dir("c06occ-")
+    chdir = os.path.join(work, "top", "ch")
+    os.makedirs(chdir)
+    cont, comp = mode
+    n, pf = 100, 100
+    k0 = 1500000000 * n
+
+    def writer(start, uuid):
+        return digital_rf.DigitalRFWriter(chdir, np.dtype("i2"), 3600, 1000, k0 + start, n, 1, uuid_str=uuid, compression_level=comp,
+                                          is_complex=False, is_continuous=cont, num_subchannels=1, marching_periods=False)
+    w = writer(5 * pf, "earlier-run")
+    w.rf_write(np.arange(40, dtype="i2"))
+    w.close()
+    w = writer(2 * pf, "the-session")
+    refused = []
+    for off, ln in ((0, 150), (3 * pf + 10, 20), (3 * pf + 30, 20), (5 * pf, 130), (6 * pf + 60, 30)):
+        try:
+            w.rf_write(np.arange(ln, dtype="i2"), off)
+        except Exception as e:  # noqa
+            refused.append((off, type(e).__name__))
+    w.close()
+    files = [f for f in wl.dump_files(chdir) if not f["tmp"] and norm(f["attrs"].get("uuid_str")) == "the-session"]
+    seq = [(f["name"], norm(f["attrs"].get("sequence_num")), norm(f["attrs"].get("init_utc_timestamp"))) for f in files]
+    if verbose:
+        print("refused calls:", refused)
+        print("files of the session (name, sequence_num, init_utc_timestamp):", seq)
+    if not refused or len(files) < 3:
+        return None          # the scenario did not come about (nothing to judge)
+    for (n1, s1, t1), (n2, s2, t2) in zip(seq, seq[1:]):
+        if not (s2 > s1) or t1 != t2:
+            return {"files_of_the_session": seq, "refused_calls": refused}
+    return None
+
+
+def occupied_period_leg(res):
+    for mode in ((False, 0), (True, 0), (True, 1)):
+        res.count("session-running-into-an-occupied-period")
+        prob = occupied_period_case(mode)
+        if prob:
+            res.violation("sequence-not-increasing", "sequence_num does not increase with file time within a session that was refused "
+                          "one file period and went on", {"occupied_period": list(mode)}, "increasing, one init timestamp", prob)
+            return
+
+
 def run(res):
     common.use_impl()
     import h5py
@@ -182,6 +232,7 @@ def run(res):
         res.count("files_inspected", len(files))
 
     wl.run_histories(res, nh, oracle, invalid_rate=0.05)
+    occupied_period_leg(res)
 
     # a later session must not be able to store attributes that disagree with the channel properties:
     # try restarts with "almost the same" parameters; whenever one is accepted, its files are inspected
@@ -240,6 +291,13 @@ T3_TRUST = ("translate/attrs2gallina.py (T3): symbolic reading of the straight-l
 
 
 def replay(res, rp):
+    if isinstance(rp.get("input"), dict) and "occupied_period" in rp["input"]:
+        common.use_impl()
+        m = rp["input"]["occupied_period"]
+        print("100 Hz, one file per second, continuous=%s compression=%s" % (m[0], m[1]))
+        prob = occupied_period_case((bool(m[0]), int(m[1])), verbose=True)
+        print("replay verdict:", "STILL VIOLATING" if prob else "no longer violating")
+        return 1 if prob else 0
     if (rp.get("input") or {}).get("label") == "restart-after-kill":
         import protolib as P
         common.use_impl()
